@@ -230,6 +230,13 @@ func aminoDrive(args []string) error {
 	for b := 0; b < 256; b++ {
 		do(aminoReq{Op: "aminoname", B: b})
 	}
+	// the same questions in other orders (an answer must not depend on what was asked before): descending, then a seeded shuffle
+	for b := 255; b >= 0; b-- {
+		do(aminoReq{Op: "aminoname", B: b})
+	}
+	for _, b := range newRand(14700).Perm(256) {
+		do(aminoReq{Op: "aminoname", B: b})
+	}
 	return tw.close()
 }
 
